@@ -7,7 +7,7 @@ ALL = [f"C{n:02d}" for n in range(1, 21)]
 
 CLAIMS = {
  "C01": dict(
-  technique="runtime monitor over decoder executions: panic hook + read_name step counter hook + counting allocator + differential against an independent RFC 1035 parser, on random/mutated/grammar/exhaustive small-alphabet inputs",
+  technique="runtime monitor over decoder executions: panic hook + read_name step counter hook + counting allocator + differential against an independent RFC 1035 parser, on random/mutated/grammar/overlapping-pointer-run/exhaustive small-alphabet inputs",
   text="Every generated datagram (millions per run, plus every string over a 9-byte name alphabet up to length 6/7 behind four headers) is decoded by the real decoder under instrumentation: a panic, more than 128*len+1024 name-loop steps, more than 1024*len+1MiB peak heap, a name longer than the datagram, or any disagreement with the independent parser W on an accepted message is a violation. Held on the inputs explored; not a proof for all 2^72000 datagrams.",
   note="Trusts the independent parser W (harness/src/wire.rs), the step hook in read_name (loops elsewhere are bounded by 16-bit counts) and the counting allocator.",
   ref="§6 C01"),
@@ -43,7 +43,7 @@ CLAIMS = {
   ref="§6 C13"),
  "C14": dict(
   technique="runtime monitor over enumerated command-queue positions and iteration splits of shutdown (simulated daemon behind the gate) + real-thread stress with resolved-receiver check",
-  text="Part A: shutdown at every position of every sequence of N<=1 (thorough N<=2) commands out of 20 kinds, released in one iteration or split over up to three, with 0-3 announced services and open searches, plus sampled sequences to N=8: goodbyes once per announced service x family (X1), one final SearchStopped per open search (X2), Shutdown reported and every later call refused (X3), every reply receiver ever handed out resolved or closed once the daemon thread ended (X4), no panic (X5), second shutdown harmless (X6). Part B: hundreds (thorough: 20000) of real daemons on private ports with 2-8 racing client threads.",
+  text="Part A: shutdown at every position of every sequence of N<=1 (thorough N<=2) commands out of 20 kinds, released in one iteration or split over up to three, with 0-3 announced services and open searches (a third of the cases with four more open browses and searches whose receivers were dropped without a stop), plus sampled sequences to N=8: goodbyes once per announced service x family (X1), one final SearchStopped per open search (X2), Shutdown reported and every later call refused (X3), every reply receiver ever handed out resolved or closed once the daemon thread ended (X4), no panic (X5), second shutdown harmless (X6). Part B: hundreds (thorough: 20000) of real daemons on private ports with 2-8 racing client threads.",
   note="Part B samples OS schedules. One known finding (residual send/exit race) in known_findings.json.",
   ref="§6 C14"),
  "C15": dict(
@@ -53,8 +53,8 @@ CLAIMS = {
   ref="§6 C15"),
  "C19": dict(
   technique="runtime trace monitor with attribution: every observed PTR/A/AAAA question is matched against the back-off chain of the running search, refresh marks computed from the delivered-record history, or a new-interface event; unexplained or missing queries are violations",
-  text="The search histories of C13 over 20 s and 2-3 virtual hours plus lone searches over three virtual days: each chain instant (start, +1 s, +2 s ... doubling to 3600 s, relative to the previous actual query) must produce its query on every interface and family (B1), gaps never exceed one hour (B3), and every other query for the same question needs a refresh mark (80/85/90/95 %) of a live cached record or an interface arrival (B2).",
-  note="Follow-up and verify queries ask other questions (instance ANY/SRV/TXT) and are not judged here.",
+  text="The search histories of C13 over 20 s and 2-3 virtual hours plus lone searches over three virtual days: each chain instant (start, +1 s, +2 s ... doubling to 3600 s, relative to the previous actual query) must produce its query on every interface and family (B1), gaps never exceed one hour (B3), and every other query for the same question needs a refresh mark (80/85/90/95 %) of a live cached record or an interface arrival (B2); an instance delivered in stages with nobody answering gets at most three follow-up rounds, at least half a second apart (B4).",
+  note="In the search workloads follow-up and verify questions are not attributed; the follow-up exemption is judged by B4 on staged deliveries.",
   ref="§6 C19"),
  "C03": dict(
   technique="runtime trace monitor against a delivered-record history model: every ServiceResolved event is checked against the lives (reception, TTL, goodbye, cache-flush displacement, verify cuts) of the records actually delivered to the daemon",
@@ -93,7 +93,7 @@ CLAIMS = {
   ref="§6 C10"),
  "C17": dict(
   technique="runtime trace monitor against the delivered-record history model for address records: every AddressesFound / AddressesRemoved / SearchTimeout / SearchStopped of a hostname search judged both ways",
-  text="Hostname histories: resolve_hostname / stop with the name in any letter case, timeouts {none, 1, 999, 1000, 1500, 7000 ms, 1 h}, a responder announcing 1-2 addresses at a time (v4/v6, owner in any case, TTLs 1-120 s, one of up to two interfaces), goodbyes, silent loss, queries answered or not, foreign records; observed 150 s past the last call; lazy and eager stepping: reported addresses are live and complete (H1), removals on time (H2), timeouts and stops exact (H3, H4).",
+  text="Hostname histories: resolve_hostname / stop with the name in any letter case, timeouts {none, 1, 999, 1000, 1500, 7000 ms, 1 h}, a responder announcing 1-2 addresses at a time (v4/v6, owner in any case, TTLs 1-120 s, one of up to two interfaces), goodbyes, silent loss, queries answered or not, foreign records; observed 150 s past the last call; lazy and eager stepping: reported addresses are live and complete (H1), removals on time (H2), A and AAAA asked at once and refreshed (H3), timeouts exact (H4), no question and no event after the search ended (H5).",
   note="Each address record keeps one owner spelling and one TTL; late wake-ups are C11's quantifier.",
   ref="§6 C17"),
  "C18": dict(
